@@ -1,6 +1,7 @@
 SPECIFICATION TSpec
 CONSTANTS
   IntTruncation = FALSE
+  MonotoneOnRescaled = FALSE
   MaxDist = 5
 INVARIANT TRegularYieldsRows
 INVARIANT TConvex
